@@ -790,6 +790,8 @@ def unchecked_getter_oracle(facts):
     """The property itself, on the real token stream: every getter that converts with `unwrap_unchecked` (conv
     unsafe_into) must target a generated enum whose conversion is defined for EVERY bit pattern the field can hold:
     an `impl From` (wildcard arm to a catch-all/default), or arms for all raw values 0..2^w-1.
+    Generated enums may share a name under different cfgs: the demand is made of EVERY same-named enum that can be
+    present in a build in which the getter is present (all of them, unless their cfg atoms contradict: X vs not(X)).
     Returns a list of (field set, getter, enum, first uncovered raw value)."""
     enums = collections.defaultdict(list)      # generated enums may share a name under different cfgs: ALL of them count
     for e in facts.get("enums", []):
@@ -806,7 +808,11 @@ def unchecked_getter_oracle(facts):
             w = g["end"] - g["start"]
             signed = g["carrier"].startswith("i")
             cb = int(g["carrier"][1:])
+            gate = set((fs.get("cfg") or []) + (g.get("cfg") or []))
             for e in enums[en]:
+                ecfg = set(e.get("cfg") or [])
+                if any(("not(%s)" % a) in ecfg for a in gate) or any(("not(%s)" % a) in gate for a in ecfg):
+                    continue           # getter and enum never exist in the same build (X against not(X))
                 wild = [a for a in e["from_arms"] if a["pattern"] == "wild"]
                 if wild and not str(wild[0].get("target", "")).startswith("err"):
                     continue
@@ -909,7 +915,7 @@ def run(ctx):
         miri, mv = miri_subset(ctx, exe, random.Random(ctx.seed + 9))
         violations += mv
     if violations:
-        violations.sort(key=lambda v: len((v.get("failing_input") or {}).get("text", "x" * 100000)))
+        violations.sort(key=lambda v: (len((v.get("failing_input") or {}).get("text", "x" * 100000)), "stderr" not in v, "implementation" not in v))
         rep = dict(violations[0])
         rep["disagreements"] = len(violations)
         vlib.violation(ctx, rep, no_input="failing_input" not in rep)
@@ -941,6 +947,15 @@ def replay(ctx, path):
     _big_stack()
     vlib.coq_gate(ctx)
     exe, err = gen_common.build_gen_runner(ctx)
+    if fi.get("family_member"):
+        # a member of the cfg-reuse family: the family is small, re-run it and report what it reports for that member
+        info, viol = cfg_reuse_family(ctx, exe)
+        ctx.log("cfg-reuse family:", json.dumps(info["members"].get(fi["family_member"])))
+        viol = [v for v in viol if (v.get("failing_input") or {}).get("family_member") == fi["family_member"]]
+        if viol:
+            viol.sort(key=lambda v: ("stderr" not in v, "implementation" not in v))
+            vlib.violation(ctx, dict(viol[0], disagreements=len(viol)))
+        return
     # rebuild the adef-independent parts from the text: re-run the generator, use facts to drive the driver
     res = gen_common.run_gen(ctx, exe, [{"id": "m0", "syntax": fi["syntax"], "text": fi["text"], "name": "Dev", "want": ["mir", "facts", "pretty"]}])
     r = res["m0"]
